@@ -53,6 +53,18 @@ C01OpTableFails(c) ==
         /\ SeqSet(c.rows) = {r \in AllRows(c.n) : GateFn(c.t, RowBits(r, c.n))}>>
   >>)
 
+(* kind "pattern": subcircuit._PatternOperations.eval_pattern on ALL pairs of 4-bit operand patterns:
+   c.tab[pa + 1][pb + 1] = result pattern; bit i of it is the gate function of bits i of pa, pb *)
+PBit(x, i) == (x \div (2 ^ i)) % 2 = 1
+C01PatternFails(c) ==
+  FailSet(<<
+    <<"pattern-simulation-of-" \o c.t,
+        \A pa \in 0 .. 15 : \A pb \in 0 .. 15 :
+          LET r == c.tab[pa + 1][pb + 1] IN
+          /\ r \in 0 .. 15
+          /\ \A i \in 0 .. 3 : PBit(r, i) = GateFn(c.t, IF c.n = 1 THEN <<PBit(pa, i)>> ELSE <<PBit(pa, i), PBit(pb, i)>>)>>
+  >>)
+
 (* kind "ttcode": the arithmetic generators' add_gate_from_tt(code) must create a gate
    that is True exactly on the rows r (= 2x+y) whose code character is 1 *)
 C01TTCodeFails(c) ==
